@@ -343,8 +343,18 @@ func (bc *boundsCtx) byLoop(e ast.Expr, base ast.Expr, need needLen, facts []cfg
 		if !f.Val {
 			op = negate(op)
 		}
+		// left side: i or i + k (k >= 0): `i + k < len - m` is `i < len - (m + k)`
+		var lk int64
 		if core.VarOf(bc.info, b.X) != iv {
-			continue
+			lb, isBin := ast.Unparen(b.X).(*ast.BinaryExpr)
+			if !isBin || lb.Op != token.ADD || core.VarOf(bc.info, lb.X) != iv {
+				continue
+			}
+			c, isC := core.ConstInt(bc.info, lb.Y)
+			if !isC || c < 0 {
+				continue
+			}
+			lk = c
 		}
 		// right side: len(base) or len(base)-m
 		var m int64
@@ -358,7 +368,7 @@ func (bc *boundsCtx) byLoop(e ast.Expr, base ast.Expr, need needLen, facts []cfg
 			continue
 		}
 		// i < len-m  => i+Off < len  iff Off <= m ; for slices i+Off <= len iff Off <= m+1
-		limit := m
+		limit := m + lk
 		if op == token.LEQ {
 			limit = m - 1
 		} else if op != token.LSS {
